@@ -356,7 +356,56 @@ fn shared_pipe_slice(ctx: &Ctx) {
     );
 }
 
+/// Every final exit status a child shell can have, including the whole 384+signal range (a
+/// subshell whose last status says "killed by N" kills itself with N if N terminates; for every
+/// other N - stop signals, continue, ignored ones, unknown numbers - it must simply exit): each
+/// kind of child terminates, is reaped, and `$?` / `wait` report the status.
+fn exit_status_sweep(ctx: &Ctx) {
+    const KINDS: [(&str, &str); 5] = [
+        ("subshell", "( probe -s ST k1 )\nprobe k2 \"$?\"\n"),
+        ("asynchronous list", "probe -s ST k1 &\nwait $!\nprobe k2 \"$?\"\n"),
+        ("command substitution", "x=$(probe -s ST k1)\nprobe k2 \"$?\"\n"),
+        ("last pipeline stage", "probe k0 | ( probe -s ST k1 )\nprobe k2 \"$?\"\n"),
+        ("nested subshell", "( ( probe -s ST k1 ) )\nprobe k2 \"$?\"\n"),
+    ];
+    let statuses: Vec<i32> = (0..=3).chain(124..=130).chain(254..=258).chain(383..=384 + 140).chain([640, 1000]).collect();
+    let statuses = &statuses;
+    ctx.par_for(
+        statuses.len() * KINDS.len(),
+        |i| {
+            let st = statuses[i / KINDS.len()];
+            let (kname, tpl) = KINDS[i % KINDS.len()];
+            let script = tpl.replace("ST", &st.to_string());
+            let mut cfg = vsh::VCfg::script(&script);
+            cfg.extra = vsh::v_probes();
+            let out = vsh::run_v(cfg);
+            ctx.eval();
+            ctx.count("exit_status_sweep_runs", 1);
+            let k2 = out.events.iter().find(|e| e.kind == "probe" && e.args.first().map(|a| a.as_str()) == Some("k2")).and_then(|e| e.args.get(1)).and_then(|v| v.parse::<i32>().ok());
+            let ctxt = || format!("{kname} ending with status {st}\nscript:\n{script}end {:?}, shell status {:?}, zombies {:?}, alive {:?}, $? seen by the parent {k2:?}\nstderr:\n{}", out.end, out.status, out.zombies, out.alive, out.err());
+            if out.end != vsh::End::Done || !out.zombies.is_empty() || !out.alive.is_empty() {
+                ctx.violation(format!("C13:exit-status-sweep:not-finished-or-not-reaped:{st}"), ctxt());
+                return;
+            }
+            // exited (low 8 bits) or killed by the signal the status names (status kept)
+            if k2 != Some(st & 0xFF) && k2 != Some(st) {
+                ctx.violation(format!("C13:exit-status-sweep:status:{st}"), ctxt());
+                return;
+            }
+            ctx.nontrivial_str(&format!("sweep|{kname}|{st}"));
+        },
+        |i, msg| {
+            if crate::util::panic_in_repo(&msg) {
+                ctx.violation(format!("C13:panic:{}", msg.split(": ").next().unwrap_or("")), format!("exit-status sweep case {i}: {msg}"));
+            } else {
+                ctx.violation("harness-panic", format!("exit-status sweep case {i}: {msg}"));
+            }
+        },
+    );
+}
+
 pub fn run(ctx: &Ctx) {
+    exit_status_sweep(ctx);
     shared_pipe_slice(ctx);
     fork_fault_slice(ctx);
     stop_continue_slice(ctx, "C13");
